@@ -382,7 +382,7 @@ func runC02Node(s *sim) {
 		s.do("PublishBatch (same batch again)", func() any { return w.n.ps.PublishBatch(&batch) })
 	}
 	w.atEnd = append(w.atEnd, func() {
-		for round := 0; round < 64; round++ {
+		for round := 0; round < 8192; round++ {
 			g := s.parkedGates()
 			if len(g) == 0 {
 				break
